@@ -2596,6 +2596,24 @@ def _res_err(m, a, c):
     return some(v.fields["0"]) if v.variant == "Err" else NONE
 
 
+@reg("std::fmt::format")
+def _fmt_format(m, a, c):
+    # format!(..): the arguments rendered into a fresh String (opaque when an argument has no text form)
+    fa = deref(a[0])
+    if not isinstance(fa, FmtArgs):
+        return Term("fmt")
+    f = PyFmt(False)
+    try:
+        r = _fmt_write_fmt(m, [f, fa], c)
+    except Unsupported:
+        return Term("fmt")          # error messages etc. built from values without a text model stay opaque
+    if is_res(r, "Err"):
+        raise Panic("a formatting trait implementation returned an error")
+    if not all(isinstance(x, str) for x in f.out):
+        return Term("fmt")
+    return "".join(f.out)
+
+
 @reg("<T as std::string::ToString>::to_string", "std::string::ToString::to_string")
 def _to_string(m, a, c):
     v = deref(a[0])
